@@ -5,9 +5,9 @@
                a definition counts 1 + k * #parameters + its body.   fz 0 = size_fcprog.
    f_wprog   = fz 1: the WEIGHTED source size (binders of clauses and definitions count).
    tocc t    = the typed variable occurrences of t as Core bindings (name, chirality, translated type):
-               what the translation of t can mention freely.  A variable occurrence annotated as a
-               covariable counts for both chiralities (it is a Consumer in argument position and a
-               producer elsewhere); a `goto l (t)` counts l at the type of t.
+               what the translation of t can mention freely.  A covariable occurrence that is an argument
+               of a call / constructor / destructor is a consumer, every other variable occurrence a
+               producer (as the translation treats them); a `goto l (t)` counts l at the type of t.
    fun_occ p = the largest number of DISTINCT typed occurrences in a definition of p.  For a program
                accepted by the type checker every occurrence refers to a parameter or binder of the
                definition, at its declared type. *)
@@ -45,26 +45,26 @@ Definition fz_prog (k : N) (p : fcprog) : N := nsum (fz_def k) (fcpdefs p).
 Definition f_wprog (p : fcprog) : N := fz_prog 1 p.
 
 (* typed occurrences *)
-Definition occ_var (v : string) (ty : option fty) (chi : option fchi) : list cbinding :=
-  match ty with
-  | None => []
-  | Some ty0 =>
-      mkcb (new_id v) CPrd (compile_ty ty0)
-      :: match chi with Some FCns => [mkcb (new_id v) CCns (compile_ty ty0)] | _ => [] end
-  end.
-Definition occ_goto (l : string) (tty : option fty) : list cbinding :=
-  match tty with Some ty0 => [mkcb (new_id l) CCns (compile_ty ty0)] | None => [] end.
+Definition occ_prd (v : string) (ty : option fty) : list cbinding :=
+  match ty with Some ty0 => [mkcb (new_id v) CPrd (compile_ty ty0)] | None => [] end.
+Definition occ_cns (v : string) (ty : option fty) : list cbinding :=
+  match ty with Some ty0 => [mkcb (new_id v) CCns (compile_ty ty0)] | None => [] end.
+Definition occ_goto (l : string) (tty : option fty) : list cbinding := occ_cns l tty.
+(* an argument of a call / constructor / destructor that is a covariable occurrence is a Consumer
+   (arguments.rs compile_subst); everywhere else a variable occurrence is translated as a producer *)
+Definition occ_arg_with (f : fterm -> list cbinding) (y : fterm) : list cbinding :=
+  match y with FVar v ty (Some FCns) => occ_cns v ty | _ => f y end.
 Fixpoint tocc (t : fterm) : list cbinding :=
   match t with
-  | FVar v ty chi => occ_var v ty chi
+  | FVar v ty _ => occ_prd v ty
   | FLit _ => []
   | FOp a _ b => tocc a ++ tocc b
   | FIfC _ a b t1 t2 _ => tocc a ++ (match b with Some b' => tocc b' | None => [] end) ++ tocc t1 ++ tocc t2
   | FPrint _ a next _ => tocc a ++ tocc next
   | FLet _ _ bound body _ => tocc bound ++ tocc body
-  | FCall _ args _ => flat_map tocc args
-  | FCtor _ args _ => flat_map tocc args
-  | FDtor scrut _ _ args _ => tocc scrut ++ flat_map tocc args
+  | FCall _ args _ => flat_map (occ_arg_with tocc) args
+  | FCtor _ args _ => flat_map (occ_arg_with tocc) args
+  | FDtor scrut _ _ args _ => tocc scrut ++ flat_map (occ_arg_with tocc) args
   | FCase scrut _ cls _ => tocc scrut ++ flat_map (fun c => match c with FClause _ _ _ _ body => tocc body end) cls
   | FNew cls _ => flat_map (fun c => match c with FClause _ _ _ _ body => tocc body end) cls
   | FLabel _ t' _ => tocc t'
@@ -72,6 +72,7 @@ Fixpoint tocc (t : fterm) : list cbinding :=
   | FExit a _ => tocc a
   | FParen t' => tocc t'
   end.
+Definition occ_arg : fterm -> list cbinding := occ_arg_with tocc.
 Definition cl_occ (c : fclause) : list cbinding := match c with FClause _ _ _ _ body => tocc body end.
 
 (* the distinct elements (first occurrences dropped) *)
@@ -104,3 +105,32 @@ Definition b_linearized (S : N) : N := S * (5 + 3 * S).
 Definition b_cg (L : N) : N := L * (5 + 2 * L).
 Definition pipeline_ax_bound (p : fcprog) : N :=
   b_linearized (b_shrunk (b_focused (f_wprog p) (fun_occ p)) (fun_X p) (fun_A p)).
+
+(* ---------- typed binders: what the occurrences of a checked program refer to ----------
+   def_tb d = the parameters of d and the binders of its body (let variables, clause parameters, labels) as
+   Core bindings at their declared types.  occ_scoped p: every typed occurrence of every definition is one of
+   its typed binders (a purely syntactic containment check; true of what the type checker accepts, where every
+   variable occurrence is annotated with the type of its binder).  Then fun_occ p <= fun_tb p. *)
+Fixpoint tbinders (t : fterm) : list cbinding :=
+  match t with
+  | FVar _ _ _ | FLit _ => []
+  | FOp a _ b => tbinders a ++ tbinders b
+  | FIfC _ a b t1 t2 _ => tbinders a ++ (match b with Some b' => tbinders b' | None => [] end) ++ tbinders t1 ++ tbinders t2
+  | FPrint _ a next _ => tbinders a ++ tbinders next
+  | FLet v vty bound body _ => mkcb (new_id v) CPrd (compile_ty vty) :: tbinders bound ++ tbinders body
+  | FCall _ args _ => flat_map tbinders args
+  | FCtor _ args _ => flat_map tbinders args
+  | FDtor scrut _ _ args _ => tbinders scrut ++ flat_map tbinders args
+  | FCase scrut _ cls _ =>
+      tbinders scrut ++ flat_map (fun c => match c with FClause _ _ _ ctx body => compile_ctx ctx ++ tbinders body end) cls
+  | FNew cls _ => flat_map (fun c => match c with FClause _ _ _ ctx body => compile_ctx ctx ++ tbinders body end) cls
+  | FLabel l t' ty => (match ty with Some ty0 => [mkcb (new_id l) CCns (compile_ty ty0)] | None => [] end) ++ tbinders t'
+  | FGoto _ t' _ => tbinders t'
+  | FExit a _ => tbinders a
+  | FParen t' => tbinders t'
+  end.
+Definition def_tb (d : fdef) : list cbinding := compile_ctx (fdctx d) ++ tbinders (fdbody d).
+Definition occ_scoped_def (d : fdef) : bool :=
+  forallb (fun b => existsb (cbinding_eqb b) (def_tb d)) (tocc (fdbody d)).
+Definition occ_scoped (p : fcprog) : bool := forallb occ_scoped_def (fcpdefs p).
+Definition fun_tb (p : fcprog) : N := fold_right N.max 0 (map (fun d => len (def_tb d)) (fcpdefs p)).
